@@ -93,6 +93,35 @@ func evalCase(t *testing.T, c *Case) verdict {
 			v.Viol, v.Class = judgeAsync(c, errs, o, ref)
 		}
 		return v
+	case "ovl":
+		// two overlapping SendMessage calls on a SyncProducer: judged like the sync case "two SendMessage calls in a row" -
+		// the mock serialises its callers, so the second call must see the state the first one leaves
+		cs := *c
+		cs.Fam = "sync"
+		if err := validProducerCase(&cs); err != nil || len(c.Script) < 2 || !hasChk(c.Script[0]) {
+			return verdict{Viol: []viol{{"invalid-case", fmt.Sprint("overlap case needs a checker on the first expectation: ", err)}}}
+		}
+		calls := callsOf(&cs)
+		msgs := mkMsgs(&cs, calls)
+		errs := newErrSet(len(c.Script))
+		ref := refProduce(&cs, errs, cloneMsgs(msgs), calls)
+		v := verdict{Desc: describe(&cs) + "; the two calls OVERLAP: the second is issued while the first is inside its checker", Nontrivial: true}
+		o := execSyncOverlap(t, &cs, errs, msgs)
+		v.Trace = append(o.trace, fmt.Sprintf("ErrorReporter calls: %q", o.Reports))
+		switch {
+		case o.Panic != "":
+			v.Viol, v.Class = []viol{{"ovl-panic", "panic while driving the mock: " + o.Panic}}, "panic"
+		case o.Hang != "":
+			v.Viol, v.Class = []viol{{"ovl-hang", "the overlapping calls never finished: " + o.Hang}}, "hang"
+		default:
+			v.Viol, v.Class = judgeSync(&cs, errs, o, ref)
+			for i := range v.Viol {
+				// same signatures as the sequential family (the recorded findings of the mock apply here too); the message says that the calls overlapped
+				v.Viol[i].Msg = "(two overlapping SendMessage calls) " + v.Viol[i].Msg
+			}
+			v.Features = syncFeatures(ref)
+		}
+		return v
 	case "cons":
 		if err := validConsCase(c.Cons); err != nil {
 			return verdict{Viol: []viol{{"invalid-case", err.Error()}}}
